@@ -25,10 +25,17 @@ from sa import report  # noqa: E402
 REPO = '/repo'
 
 
-def func_range(path, start_line):
+def func_range(path, start_line, name=None):
     src = open(path).read().split('\n')
-    # find the opening brace of the body at or after start_line - 1 (the fact line is the body's line)
+    # find the opening brace of the body at or after start_line - 1 (the fact line is the body's line); the
+    # signature may span several lines: start at the line that carries the function's name
     i = max(0, start_line - 3)
+    if name:
+        last = name.split('::')[-1]
+        for k in range(start_line - 1, max(-1, start_line - 14), -1):
+            if 0 <= k < len(src) and re.search(r'\b%s\s*\(' % re.escape(last), src[k]):
+                i = k
+                break
     depth = 0
     begun = False
     for ln in range(i, len(src)):
@@ -103,7 +110,7 @@ def run_one(c):
             if os.path.exists(os.path.join(REPO, f)):
                 shutil.copy2(os.path.join(REPO, f), os.path.join(scratch, f))
         path = os.path.join(scratch, rel)
-        rng = func_range(path, line)
+        rng = func_range(path, line, nm)
         if rng is None:
             return c, 'skip', 'no body found'
         lines = open(path).read().split('\n')
